@@ -315,9 +315,11 @@ def main():
     jobs.append(("\n".join(lines) + "\n", where))
   # ---- history family.  spec -> CPython: every program line by line
   pre_h = pre + box_classes()
+  env_h = dict(env)
+  exec("\n".join(box_classes()), env_h)  # pylint: disable=exec-used
   lines, where, nprog = list(pre_h), {}, 0
   for p in progs:
-    run_program(p["events"], env)
+    run_program(p["events"], env_h)
     for e in p["events"]:
       lines.append(e["src"])
       where[len(lines)] = e
